@@ -1,5 +1,208 @@
-import Bkl
+/-
+  C16 — "bkli yields the maximal common base, and the migrate workflow is lossless".
+
+  `intersect a b` / `intersectAll` (Bkl/Tools.lean, mirror cmd/bkli/intersect.go) compute the
+  common base of several documents; conflicting values become the marker string `"$required"`
+  (lists with nothing in common become `["$required"]`).
+
+  `Sub r v` (BklProofs/Lemmas/ToolsIntersect.lean, decidable): `r` is a marker-tolerant
+  sub-document of `v` — `r = "$required"`, or both are maps and every key of `r` is in `v` with
+  `Sub` of the values, or both are lists and (`r = ["$required"]` or every entry of `r` occurs
+  in `v`), or `r = v`.
+
+  Input domains: `Val.WF`, `Val.nullFree` (no `.null` anywhere), `plainVal` (WF, null-free and
+  `$`-free), all in BklProofs/Lemmas/Tools.lean.
+
+  Property theorems only; helpers are in BklProofs/Lemmas/{Tools,ToolsDiff,ToolsIntersect}.lean.
+-/
+import BklProofs.Lemmas.ToolsIntersect
+import BklProofs.C15
 namespace Bkl
-/-- placeholder until the property theorems land -/
-theorem C16_placeholder : validate (.int 1) = .ok () := by simp [validate]; rfl
+
+/-! ### the shared witnesses `C16_a`, `C16_b`, `C16_c` are in Lemmas/ToolsIntersect.lean -/
+
+/-- what bkli computes for two and for three of the witnesses -/
+example : intersect C16_a C16_b =
+    .map [("img", .str "nginx"), ("name", .str "$required"), ("ports", .list [.int 80]),
+          ("res", .map [("cpu", .int 1), ("mem", .str "$required")]),
+          ("tags", .list [.str "$required"])] := by decide
+
+example : intersectAll [C16_a, C16_b, C16_c] =
+    .map [("img", .str "nginx"), ("name", .str "$required"), ("ports", .list [.int 80]),
+          ("res", .str "$required"), ("tags", .list [.str "$required"])] := by decide
+
+/-! ## 1. the result is a common sub-document -/
+
+/-- For null-free inputs (`a` well-formed) the intersection is a sub-document of both. -/
+theorem C16_common (a b : Val) (ha : Val.WF a) (han : a.nullFree = true)
+    (hbn : b.nullFree = true) :
+    Sub (intersect a b) a ∧ Sub (intersect a b) b :=
+  ⟨Sub_intersect_left a b ha han hbn, Sub_intersect_right a b han hbn⟩
+
+example : Val.WF C16_a ∧ C16_a.nullFree = true ∧ C16_b.nullFree = true := by decide
+
+/-- null-freeness cannot be dropped: a `null` on one side makes the result `null` -/
+example : ¬ Sub (intersect (.int 1) .null) (.int 1) := by decide
+
+/-! ## 2. a field present in both inputs is never dropped -/
+
+/-- a key carrying non-null values in both inputs is kept; its value is the intersection of the
+    two values (no sortedness needed) -/
+theorem C16_required_on_conflict (am bm : Fields) (k : String) (x y : Val)
+    (hx : fget am k = some x) (hy : fget bm k = some y) (hxn : x ≠ .null) (hyn : y ≠ .null) :
+    fget (intersectFields am bm) k = some (intersect x y) ∧
+    fget (intersectFields am bm) k ≠ none := by
+  have h := fget_intersectFields hx hy (intersect_isNull hxn hyn)
+  exact ⟨h, by rw [h]; simp⟩
+
+example : fget [("name", Val.str "a")] "name" = some (.str "a") ∧
+    fget [("name", Val.str "b")] "name" = some (.str "b") ∧
+    Val.str "a" ≠ .null ∧ Val.str "b" ≠ .null := by decide
+
+/-- … and two different scalars become the marker `"$required"` -/
+theorem C16_required_on_conflict_scalar (am bm : Fields) (k : String) (x y : Val)
+    (hx : fget am k = some x) (hy : fget bm k = some y) (hxs : x.isScalar = true)
+    (hyn : y ≠ .null) (hne : x ≠ y) :
+    fget (intersectFields am bm) k = some (.str "$required") := by
+  have hxn : x ≠ .null := by intro e; subst e; cases hxs
+  rw [(C16_required_on_conflict am bm k x y hx hy hxn hyn).1, intersect_scalar x y hxs hyn]
+  have : (x == y) = false := beq_eq_false_iff_ne.2 hne
+  rw [this]; rfl
+
+example : fget [("name", Val.str "a")] "name" = some (.str "a") ∧
+    fget [("name", Val.str "b")] "name" = some (.str "b") ∧
+    (Val.str "a").isScalar = true ∧ Val.str "b" ≠ .null ∧ Val.str "a" ≠ .str "b" := by decide
+
+/-! ## 3. idempotence and maximality -/
+
+theorem C16_idempotent (v : Val) (hv : Val.WF v) (hn : v.nullFree = true) :
+    intersect v v = v :=
+  intersect_self v hv hn
+
+example : Val.WF C16_a ∧ C16_a.nullFree = true := by decide
+
+/-- an empty list is the one place where well-formed, null-free data could have been lost
+    (`len(a)+len(b) > 0` in the Go code guards it) -/
+example : intersect (.list []) (.list []) = .list [] := by decide
+
+/-- a key with the same (well-formed, null-free) value in both inputs is kept unchanged -/
+theorem C16_keeps_shared (am bm : Fields) (k : String) (x : Val)
+    (hx : fget am k = some x) (hy : fget bm k = some x) (hw : Val.WF x)
+    (hn : x.nullFree = true) :
+    fget (intersectFields am bm) k = some x := by
+  have hxn := nullFree_ne_null hn
+  have h := (C16_required_on_conflict am bm k x x hx hy hxn hxn).1
+  rwa [intersect_self x hw hn] at h
+
+example : fget [("res", Val.map [("cpu", .int 1)])] "res" = some (.map [("cpu", .int 1)]) ∧
+    Val.WF (.map [("cpu", .int 1)]) ∧ (Val.map [("cpu", .int 1)]).nullFree = true := by decide
+
+/-! ## 4. the bkli main loop -/
+
+theorem C16_fold_same (v : Val) (hv : Val.WF v) (hn : v.nullFree = true) :
+    intersectAll [v, v, v] = v := by
+  simp only [intersectAll, List.foldl_cons, List.foldl_nil]
+  rw [intersect_self v hv hn, intersect_self v hv hn]
+
+example : Val.WF C16_a ∧ C16_a.nullFree = true := by decide
+
+/-- for plain inputs the result of the whole fold is a sub-document of every input -/
+theorem C16_fold (vs : List Val) (h : ∀ x ∈ vs, plainVal x = true) :
+    ∀ x ∈ vs, Sub (intersectAll vs) x :=
+  (intersectAll_sub vs h).2
+
+example : ∀ x ∈ [C16_a, C16_b, C16_c], plainVal x = true := by decide
+
+/-- … and stays in the domain (well-formed, null-free) -/
+theorem C16_fold_wf (vs : List Val) (hne : vs ≠ []) (h : ∀ x ∈ vs, plainVal x = true) :
+    Val.WF (intersectAll vs) ∧ (intersectAll vs).nullFree = true :=
+  (intersectAll_sub vs h).1 hne
+
+example : [C16_a, C16_b, C16_c] ≠ [] ∧ ∀ x ∈ [C16_a, C16_b, C16_c], plainVal x = true := by decide
+
+/-- `C16_fold` is FALSE for inputs that are merely well-formed and null-free: an input list
+    that itself carries the marker string twice survives as `["$required", "$required"]`, which
+    is neither `["$required"]` nor a sub-list of the first input. -/
+theorem C16_fold_needs_plain :
+    let vs := [Val.list [.str "x"], .list [.str "y"], .list [.str "$required", .str "$required"]]
+    (∀ x ∈ vs, Val.WF x ∧ x.nullFree = true) ∧
+    intersectAll vs = .list [.str "$required", .str "$required"] ∧
+    ¬ Sub (intersectAll vs) (.list [.str "x"]) := by decide
+
+/-- two inputs: no `$`-freeness needed -/
+theorem C16_fold_partial (a b : Val) (ha : Val.WF a) (han : a.nullFree = true)
+    (hbn : b.nullFree = true) :
+    Sub (intersectAll [b, a]) a ∧ Sub (intersectAll [b, a]) b :=
+  C16_common a b ha han hbn
+
+example : Val.WF C16_a ∧ C16_a.nullFree = true ∧ C16_b.nullFree = true := by decide
+
+/-! ## 5. the migrate workflow is lossless -/
+
+/-- For a plain document `x` and any well-formed base `b` that is a sub-document of `x`
+    (markers `"$required"` and `["$required"]` allowed anywhere): bkld either finds them equal
+    or emits a patch that bkl accepts over `b` and that reproduces `x`. -/
+theorem C16_lossless (x b : Val) (hx : plainVal x = true) (hb : Val.WF b) (hsub : Sub b x) :
+    match diff x b with
+    | .same => x = b
+    | .patch p => merge b p = .ok x
+    | .replaceParent => False := by
+  have h := diff_spec x b hx hb
+  have hne := diff_ne_replaceParent_of_Sub hsub
+  cases hd : diff x b with
+  | same => rw [hd] at h; exact h
+  | patch p => rw [hd] at h; exact h
+  | replaceParent => exact hne hd
+
+example : plainVal C16_a = true ∧ Val.WF (intersect C16_a C16_b) ∧
+    Sub (intersect C16_a C16_b) C16_a := by decide
+
+/-- the base computed by bkli from plain inputs, against each of the inputs -/
+theorem C16_lossless_migrate (vs : List Val) (h : ∀ x ∈ vs, plainVal x = true) (x : Val)
+    (hx : x ∈ vs) :
+    match diff x (intersectAll vs) with
+    | .same => x = intersectAll vs
+    | .patch p => merge (intersectAll vs) p = .ok x
+    | .replaceParent => False := by
+  have hne : vs ≠ [] := by intro e; rw [e] at hx; cases hx
+  exact C16_lossless x _ (h x hx) (C16_fold_wf vs hne h).1 (C16_fold vs h x hx)
+
+example : (∀ x ∈ [C16_a, C16_b, C16_c], plainVal x = true) ∧ C16_b ∈ [C16_a, C16_b, C16_c] := by
+  decide
+
+/-- Whole map-rooted documents: the base is a map; for every input either bkld emits nothing
+    and the input equals the base, or the emitted layer carries `$match: {}` and its body (the
+    layer without `$match`, what the parser merges) turns the base back into that input. -/
+theorem C16_lossless_doc (vs : List Val) (h : ∀ x ∈ vs, plainVal x = true)
+    (hm : ∀ x ∈ vs, x.isMap = true) (t : Fields) (ht : Val.map t ∈ vs) :
+    ∃ bm, intersectAll vs = .map bm ∧
+      match diffDoc (.map t) (.map bm) with
+      | none => Val.map t = Val.map bm
+      | some layer => ∃ m, layer = .map m ∧ fget m "$match" = some (.map []) ∧
+          merge (.map bm) (.map (fdel m "$match")) = .ok (.map t) := by
+  have hne : vs ≠ [] := by intro e; rw [e] at ht; cases ht
+  obtain ⟨bm, hbm⟩ := intersectAll_isMap vs hne hm
+  refine ⟨bm, hbm, ?_⟩
+  have hpl := h _ ht
+  have hwf := (C16_fold_wf vs hne h).1
+  have hsub := C16_fold vs h _ ht
+  rw [hbm] at hwf hsub
+  -- the base has no `$match` key: its keys are keys of the plain input
+  have hnm : fget bm "$match" = none := by
+    cases hg : fget bm "$match" with
+    | none => rfl
+    | some r =>
+      obtain ⟨vm, hv, hall⟩ := Sub_map_iff.1 hsub
+      cases hv
+      obtain ⟨y, hy, _⟩ := hall _ (fget_mem hg)
+      have hy' : fget t "$match" = some y := hy
+      rw [plainVal_fget_dollar hpl (show dollarFree "$match" = false by decide)] at hy'
+      cases hy'
+  exact C15_roundtrip_wf_base t bm hpl hwf hnm
+
+example : (∀ x ∈ [C16_a, C16_b, C16_c], plainVal x = true) ∧
+    (∀ x ∈ [C16_a, C16_b, C16_c], x.isMap = true) ∧
+    (∃ t, Val.map t ∈ [C16_a, C16_b, C16_c]) :=
+  ⟨by decide, by decide, _, List.mem_cons_self⟩
+
 end Bkl
